@@ -226,7 +226,9 @@ def check_helper(case, ctx):
     a = impl(lambda: make(case["engine"], case["with"]).match(rec))
     b = impl(lambda: make(case["engine"], case["without"]).match(rec))
     if not b.ok:
-        raise RuntimeError("harness: reference expression raised: %s %r" % (case["without"], b))
+        # the call WITHOUT any missing name raised: not a matter of missing fields (C07 judges the helpers themselves)
+        ctx.cls("undefined:call-without-missing-names-raised")
+        return
     base = "%s/helper/%s" % (case["engine"], case["helper"])
     if case["helper"] != "misc":
         # absolute expectation from /verif's own helper implementations (written from the docstrings)
